@@ -1131,6 +1131,11 @@ def _returns_package_object(proj, fi, rets):
         if isinstance(r.value, ast.Name):
             vals = [v for v, st, p in reaching_defs(fi.node, r.value.id, r) if v != 'param' and isinstance(v, ast.AST)]
         for v in vals:
+            # a mutable container is shared between callers just like an array
+            if isinstance(v, (ast.Dict, ast.List, ast.Set, ast.ListComp, ast.DictComp, ast.SetComp)):
+                return True
+            if isinstance(v, ast.Call) and isinstance(v.func, ast.Name) and v.func.id in ('dict', 'list', 'set', 'bytearray'):
+                return True
             if isinstance(v, ast.Call):
                 rr = resolve_callee(proj, fi.module, v)
                 if rr.kind == 'class':
@@ -3021,4 +3026,335 @@ def hm5(proj, rep, modules=('numqi.entangle',)):
         else:
             rep.ok('HM5', fi.qual, 'state argument never combined with its bare transpose', m, fi.node, text=f'{fi.qual} hermitisation')
     rep.count('HM5.functions_with_state_arguments', n)
+    return n
+
+
+# ------------------------------------------------------------------------------------------------ round 5, second half
+RULE_QF1 = ('QF1: a quadratic form <v|M|v> written `vdot(v, E)` with a matrix product E has v as the RIGHT operand of that product (`M @ v`). `vdot(v, v @ M)` is '
+            '<v|M^T|v> = conj(<v|M|v>) for Hermitian M: equal only for real data.')
+RULE_HM6 = ('HM6: in a function that handles complex data (it conjugates / builds 1j terms), an einsum that uses the SAME array as two operands (a Gram matrix, a '
+            'character inner product, an outer product |v><v|) conjugates one of them: `einsum(X, .., X, ..)` / `einsum("ij,ik->ijk", X, X)` is sum X X, not X X^dagger.')
+RULE_V5 = ('V5: a convex-roof `forward` never divides by the ensemble weights without a floor: a member of exactly zero weight (a zero row of the Stiefel matrix, the '
+           'eigen-ensemble warm start) gives 0/0 = NaN although the decomposition is valid.')
+RULE_AC1 = ('AC1: `np.allclose` / `np.isclose` / `torch.allclose` called with an explicit `atol` also names `rtol` (normally rtol=0): the default rtol = 1e-5 is added on '
+            'top, so a tolerance parameter of 1e-10 silently becomes 1e-5 relative and nearly-structured input is dispatched to the wrong structure class.')
+RULE_LG1 = ('LG1: the layout of an input is never guessed from a size coincidence: `if x.shape[0] == n: x = x.T` transposes every square input that is already in the '
+            'documented layout.')
+RULE_DT11 = ('DT11: in numqi.gellmann every torch constructor that receives Python floats (`torch.full`, `torch.tensor`, `torch.ones(..)*c`) names its dtype: the default '
+             'float32 rounds constants like 1/sqrt(2d) to 1e-8 before they are promoted back to float64.')
+RULE_DT6C = ('DT6C: in numqi.gellmann a buffer that receives sqrt-scaled coefficients is not allocated with the dtype of the input (`empty_like(vec[...])`): integer '
+             'coefficient vectors (unit vectors e_i) would have the irrational factors truncated.')
+RULE_UPB1 = ('UPB1: in the literal table of the four-qubit UPB every two product vectors are orthogonal because some party holds two different vectors of the same '
+             'orthonormal basis b_k; the checker evaluates this on the (basis, index) labels of the literal table - a transcription slip in an index list breaks '
+             'orthogonality of the set and the rank of the complementary projector.')
+RULE_GR8 = ('GR8: a hard-coded table of partition numbers equals p(0), p(1), ... computed by the checker (Euler recurrence): a mistyped entry makes the irrep count '
+            'disagree with the number of Young diagrams for that N only.')
+RULE_PG2 = ('PG2: `get_su2_irrep` never reduces alpha / gamma modulo 2 pi: exp(-i m alpha) with half-integer m is 4 pi periodic, the wrap flips the sign of the whole '
+            'matrix for odd 2j.')
+RULE_AG7 = ('AG7: the 4 pi sheet of gamma in `su2_to_angle` is decided by the real part of the COMPLEX product exp(i(alpha+gamma)/2) * a: a test built from `a.real` '
+            'alone drops the -sin * Im(a) term and leaves gamma unshifted whenever U[0,0] is purely imaginary (diag(i,-i), i*H).')
+RULE_M3G = ('M3(g): measure_quantum_vector does not reject states by an absolute double-precision tolerance on the probabilities (`assert abs(prob.sum()-1) < 1e-10`): '
+            'a correctly normalised complex64 state is off by 1e-7.')
+
+
+def qf1_hm6_ac1_lg1(proj, rep, modules=None):
+    for k, v in (('QF1', RULE_QF1), ('HM6', RULE_HM6), ('AC1', RULE_AC1), ('LG1', RULE_LG1)):
+        rep.rule(k, v)
+    nfun = nq = 0
+    for fi in proj.iter_functions():
+        m = fi.module
+        if not _in_scope(m, modules):
+            continue
+        nfun += 1
+        src = ast.unparse(fi.node)
+        cx_aware = '1j' in src or '.conj()' in src or 'complex' in src
+        params = set(fi.all_params)
+        for c in ast.walk(fi.node):
+            if isinstance(c, ast.Call):
+                f = ast.unparse(c.func)
+                # QF1
+                if f.split('.')[-1] == 'vdot' and len(c.args) == 2 and isinstance(c.args[0], ast.Name) and isinstance(c.args[1], ast.BinOp) and isinstance(c.args[1].op, ast.MatMult):
+                    v = c.args[0].id
+                    mm = c.args[1]
+                    l_is = isinstance(mm.left, ast.Name) and mm.left.id == v
+                    r_is = isinstance(mm.right, ast.Name) and mm.right.id == v
+                    if l_is or r_is:
+                        nq += 1
+                        rep.touch(m)
+                        if l_is and not r_is:
+                            rep.violation('QF1', fi.qual, f'`{ast.unparse(c)[:60]}`: the vector `{v}` multiplies the matrix from the left: this is <{v}|M^T|{v}>, the conjugate of the '
+                                          f'quadratic form for Hermitian M', m, c)
+                        else:
+                            rep.ok('QF1', fi.qual, f'`{ast.unparse(c)[:50]}`', m, c)
+                # HM6
+                if f.split('.')[-1] in ('einsum', 'contract') and cx_aware:
+                    ops = [a for a in c.args if isinstance(a, ast.Name)]
+                    names = [a.id for a in ops]
+                    dup = {x for x in names if names.count(x) >= 2}
+                    has_conj = any(isinstance(a, ast.Call) and isinstance(a.func, ast.Attribute) and a.func.attr in ('conj', 'conjugate') for a in c.args)
+                    if dup and not has_conj and not isinstance(_stmt(c), ast.Assert):
+                        x = sorted(dup)[0]
+                        # complex evidence for that very array: defined with 1j / conj / from a complex-capable producer, or it is a parameter of a complex-aware function
+                        defs = [v for v, st, p in reaching_defs(fi.node, x, c) if v != 'param' and isinstance(v, ast.AST)]
+                        real_only = defs and all(('.real' in ast.unparse(v) or 'abs(' in ast.unparse(v)) for v in defs)
+                        if not real_only and _complex_flow(fi, x, c):
+                            rep.touch(m)
+                            rep.violation('HM6', fi.qual, f'`{ast.unparse(c)[:70]}` contracts `{x}` with itself without a conjugate in a function that handles complex data: for complex '
+                                          f'`{x}` this is not a Gram matrix / projector', m, c)
+                # HS1 (reported under HM6): <A, B> = sum conj(A_ij) B_ij of two flattened square matrices needs the conjugate on one of them
+                if f.split('.')[-1] in ('einsum', 'contract') and len(c.args) >= 4:
+                    ops = [(c.args[i], c.args[i + 1]) for i in range(0, len(c.args) - 1, 2) if isinstance(c.args[i + 1], ast.List)]
+
+                    def flat_sq(e):
+                        e2 = e.func.value if isinstance(e, ast.Call) and isinstance(e.func, ast.Attribute) and e.func.attr in ('conj', 'conjugate') else e
+                        return isinstance(e2, ast.Call) and isinstance(e2.func, ast.Attribute) and e2.func.attr == 'reshape' and len(e2.args) == 2 \
+                            and isinstance(e2.args[1], ast.BinOp) and isinstance(e2.args[1].op, ast.Mult) and ast.dump(e2.args[1].left) == ast.dump(e2.args[1].right)
+                    if len(ops) == 2 and ast.dump(ops[0][1]) == ast.dump(ops[1][1]) and all(flat_sq(o) for o, _ in ops):
+                        nq += 1
+                        rep.touch(m)
+                        if any('conj' in ast.unparse(o) for o, _ in ops):
+                            rep.ok('HM6', fi.qual, f'`{ast.unparse(c)[:60]}`: Hilbert-Schmidt product with a conjugate', m, c)
+                        else:
+                            rep.violation('HM6', fi.qual, f'`{ast.unparse(c)[:80]}`: the Hilbert-Schmidt product of two flattened matrices without a conjugate is Tr(A^T B), not '
+                                          f'Tr(A^dagger B): for a complex Hermitian state this adds S(rho || rho^T)', m, c)
+                # AC1
+                if f.split('.')[-1] in ('allclose', 'isclose') and any(k.arg == 'atol' for k in c.keywords) and not any(k.arg == 'rtol' for k in c.keywords) and len(c.args) < 3:
+                    rep.touch(m)
+                    rep.violation('AC1', fi.qual, f'`{ast.unparse(c)[:70]}` passes atol but keeps the default rtol = 1e-5: the effective tolerance is atol + 1e-5*|b|', m, c)
+            # LG1
+            if isinstance(c, ast.If) and isinstance(c.test, ast.Compare) and len(c.test.ops) == 1 and isinstance(c.test.ops[0], ast.Eq):
+                t = c.test
+                sides = [t.left, t.comparators[0]]
+                shp = [s for s in sides if isinstance(s, ast.Subscript) and isinstance(s.value, ast.Attribute) and s.value.attr == 'shape' and isinstance(s.value.value, ast.Name)
+                       and s.value.value.id in params]
+                if shp:
+                    p = shp[0].value.value.id
+                    for s in c.body:
+                        if isinstance(s, ast.Assign) and isinstance(s.targets[0], ast.Name) and s.targets[0].id == p:
+                            tv = ast.unparse(s.value).replace(' ', '')
+                            if tv in (f'{p}.T', f'{p}.transpose()', f'{p}.transpose(1,0)', f'{p}.mT', f'{p}.transpose(0,1)'):
+                                rep.touch(m)
+                                rep.violation('LG1', fi.qual, f'`if {ast.unparse(t)}: {ast.unparse(s)}`: the input layout is guessed from a size coincidence; a square input in the documented '
+                                              f'layout is transposed as well', m, c)
+    rep.count('QF1.quadratic_forms', nq)
+    rep.count('QF1.functions_scanned', nfun)
+    if nfun:
+        rep.ok('HM6', 'scope', f'{nfun} functions scanned: no self-contraction without conjugate in complex-aware code, no allclose with a hidden rtol, no layout guess', proj.mod('numqi.utils'),
+               proj.mod('numqi.utils').tree, text='hm6 / ac1 / lg1 sweep')
+    return nfun, nq
+
+
+def _complex_flow(fi, name, at):
+    """does `name` plausibly hold complex data here?  a 1j / exp(1j..) / complex producer in its definitions (2 hops), or a parameter"""
+    seen = set()
+
+    def go(nm, node, depth):
+        if depth > 2 or nm in seen:
+            return False
+        seen.add(nm)
+        for v, st, p in reaching_defs(fi.node, nm, node):
+            if v == 'param':
+                return True
+            if not isinstance(v, ast.AST):
+                continue
+            t = ast.unparse(v)
+            if '1j' in t or 'complex' in t or '.conj()' in t:
+                return True
+            for y in ast.walk(v):
+                if isinstance(y, ast.Name) and go(y.id, st, depth + 1):
+                    return True
+        # list-valued names filled by append
+        for c in ast.walk(fi.node):
+            if isinstance(c, ast.Call) and isinstance(c.func, ast.Attribute) and c.func.attr in ('append', 'extend') and isinstance(c.func.value, ast.Name) and c.func.value.id == nm:
+                t = ast.unparse(c)
+                if '1j' in t or 'complex' in t:
+                    return True
+                for y in ast.walk(c):
+                    if isinstance(y, ast.Name) and y.id != nm and go(y.id, c, depth + 1):
+                        return True
+        return False
+    return go(name, at, 0)
+
+
+def v5(proj, rep, modules):
+    rep.rule('V5', RULE_V5)
+    n = 0
+    for fi in proj.iter_functions():
+        m = fi.module
+        if not _in_scope(m, modules) or fi.cls is None or fi.qual.rsplit('.', 1)[1] != 'forward':
+            continue
+        weights = {s.targets[0].id for s in ast.walk(fi.node) if isinstance(s, ast.Assign) and isinstance(s.targets[0], ast.Name) and s.targets[0].id in ('prob', 'weight', 'p_list', 'prob_list')}
+        if not weights:
+            continue
+        n += 1
+        rep.touch(m)
+        bad = None
+        for b in ast.walk(fi.node):
+            if isinstance(b, ast.BinOp) and isinstance(b.op, ast.Div):
+                den = b.right
+                if any(isinstance(y, ast.Name) and y.id in weights for y in ast.walk(den)) and not any(
+                        isinstance(c, ast.Call) and ast.unparse(c.func).split('.')[-1] in ('maximum', 'clamp', 'clip', 'clamp_min') for c in ast.walk(den)):
+                    bad = b
+        if bad is not None:
+            rep.violation('V5', fi.qual, f'`{ast.unparse(bad)[:70]}` divides by the ensemble weights without a floor: NaN for a member of zero weight', m, bad)
+        else:
+            rep.ok('V5', fi.qual, 'no unguarded division by the ensemble weights', m, fi.node, text=f'{fi.qual} weight division')
+    rep.count('V5.forward_methods_with_weights', n)
+    return n
+
+
+def gellmann_dtype(proj, rep):
+    rep.rule('DT11', RULE_DT11)
+    rep.rule('DT6C', RULE_DT6C)
+    n = 0
+    for fi in proj.iter_functions():
+        m = fi.module
+        if m.name != 'numqi.gellmann':
+            continue
+        params = set(fi.all_params)
+        for c in ast.walk(fi.node):
+            if isinstance(c, ast.Call) and ast.unparse(c.func) in ('torch.full', 'torch.tensor', 'torch.ones', 'torch.zeros', 'torch.eye', 'torch.linspace'):
+                n += 1
+                rep.touch(m)
+                if any(k.arg == 'dtype' for k in c.keywords):
+                    rep.ok('DT11', fi.qual, f'`{ast.unparse(c)[:50]}` names its dtype', m, c)
+                else:
+                    rep.violation('DT11', fi.qual, f'`{ast.unparse(c)[:70]}` has no dtype: float32 by default, a constant such as 1/sqrt(2d) is rounded to 1e-8 before the promotion to '
+                                  f'float64', m, c)
+        for s in ast.walk(fi.node):
+            if isinstance(s, ast.Assign) and isinstance(s.targets[0], ast.Name) and isinstance(s.value, ast.Call) and ast.unparse(s.value.func).split('.')[-1] in ('empty_like', 'zeros_like') \
+                    and s.value.args and any(isinstance(y, ast.Name) and y.id in params for y in ast.walk(s.value.args[0])) and not any(k.arg == 'dtype' for k in s.value.keywords):
+                buf = s.targets[0].id
+                for a in ast.walk(fi.node):
+                    if isinstance(a, ast.Assign) and isinstance(a.targets[0], ast.Subscript) and isinstance(a.targets[0].value, ast.Name) and a.targets[0].value.id == buf \
+                            and any(isinstance(c, ast.Call) and ast.unparse(c.func).split('.')[-1] == 'sqrt' for c in ast.walk(a.value)):
+                        n += 1
+                        rep.touch(m)
+                        rep.violation('DT6C', fi.qual, f'`{ast.unparse(s)[:60]}` inherits the dtype of the coefficient vector and `{ast.unparse(a)[:50]}` stores sqrt-scaled values: integer '
+                                      f'coefficient vectors are truncated', m, s)
+    rep.count('DT11.torch_constructors_in_gellmann', n)
+    return n
+
+
+def _partition_numbers(k):
+    p = [1] + [0] * (k - 1)
+    for part in range(1, k):
+        for s in range(part, k):
+            p[s] += p[s - part]
+    return p
+
+
+def upb1_gr8(proj, rep, which):
+    n = 0
+    if 'UPB1' in which:
+        rep.rule('UPB1', RULE_UPB1)
+        fi = proj.func('numqi.entangle.upb.load_upb')
+        m = fi.module
+        rep.touch(m)
+        arm = next((g for g in ast.walk(fi.node) if isinstance(g, ast.If) and "'feng2x2x2x2'" in ast.unparse(g.test)), None)
+        parties = None
+        if arm is not None:
+            defs = {s.targets[0].id: s.value for s in arm.body if isinstance(s, ast.Assign) and isinstance(s.targets[0], ast.Name)}
+            up = defs.get('upb')
+
+            def label(e):
+                if isinstance(e, ast.Subscript) and isinstance(e.value, ast.Name) and e.value.id in ('b1', 'b2', 'b3') and isinstance(e.slice, ast.Constant):
+                    return (int(e.value.id[1]), int(e.slice.value))
+                return None
+            if isinstance(up, ast.List) and all(isinstance(e, ast.Name) and e.id in defs for e in up.elts):
+                parties = []
+                for e in up.elts:
+                    v = defs[e.id]
+                    if isinstance(v, ast.Call) and ast.unparse(v.func).endswith('stack') and isinstance(v.args[0], ast.List):
+                        parties.append([label(x) for x in v.args[0].elts])
+                    else:
+                        parties = None
+                        break
+            elif isinstance(up, ast.ListComp) and isinstance(defs.get('basis'), ast.Call) and 'concatenate' in ast.unparse(defs['basis'].func):
+                order = [x.id for x in defs['basis'].args[0].elts] if isinstance(defs['basis'].args[0], ast.List) else None
+                it = up.generators[0].iter
+                if order == ['b1', 'b2', 'b3'] and isinstance(it, (ast.Tuple, ast.List)):
+                    try:
+                        parties = [[(r // 2 + 1, r % 2) for r in ast.literal_eval(x)] for x in it.elts]
+                    except Exception:
+                        parties = None
+        if not parties or any(l is None for p in parties for l in p) or len({len(p) for p in parties}) != 1:
+            rep.undecided('UPB1', fi.qual, 'literal table of the feng2x2x2x2 UPB not recognised', m, arm if arm is not None else fi.node, text='feng table')
+        else:
+            nv = len(parties[0])
+            bad = [(i, j) for i in range(nv) for j in range(i + 1, nv) if not any(p[i][0] == p[j][0] and p[i][1] != p[j][1] for p in parties)]
+            n += nv * (nv - 1) // 2
+            if bad:
+                rep.violation('UPB1', fi.qual, f'product vectors {bad[0][0]} and {bad[0][1]} of the feng2x2x2x2 table are not orthogonal: no party holds two different vectors of one '
+                              f'basis for this pair ({len(bad)} such pair(s)): the set is not an orthonormal product basis', m, arm)
+            else:
+                rep.ok('UPB1', fi.qual, f'all {nv * (nv - 1) // 2} pairs of the feng2x2x2x2 table are orthogonal by construction', m, arm)
+    if 'GR8' in which:
+        rep.rule('GR8', RULE_GR8)
+        m = proj.mod('numqi.group._symmetric')
+        rep.touch(m)
+        for s in m.tree.body:
+            if isinstance(s, ast.Assign) and isinstance(s.targets[0], ast.Name) and isinstance(s.value, (ast.Tuple, ast.List)) and len(s.value.elts) >= 8 \
+                    and all(isinstance(e, ast.Constant) and isinstance(e.value, int) for e in s.value.elts):
+                vals = [e.value for e in s.value.elts]
+                p = _partition_numbers(len(vals))
+                close = sum(1 for a, b in zip(vals, p) if a == b)
+                if close >= len(vals) - 3:          # it IS a table of partition numbers
+                    n += 1
+                    if vals == p:
+                        rep.ok('GR8', f'numqi.group._symmetric.{s.targets[0].id}', f'{len(vals)} partition numbers', m, s)
+                    else:
+                        k = next(i for i, (a, b) in enumerate(zip(vals, p)) if a != b)
+                        rep.violation('GR8', f'numqi.group._symmetric.{s.targets[0].id}', f'entry {k} of the partition-number table is {vals[k]}, p({k}) = {p[k]}', m, s)
+    return n
+
+
+def pg2_ag7_m3g(proj, rep, which):
+    n = 0
+    if 'PG2' in which:
+        rep.rule('PG2', RULE_PG2)
+        fi = proj.func('numqi.group._lie.get_su2_irrep')
+        m = fi.module
+        rep.touch(m)
+        n += 1
+        bad = None
+        for b in ast.walk(fi.node):
+            if isinstance(b, ast.BinOp) and isinstance(b.op, ast.Mod) and 'pi' in ast.unparse(b.right):
+                bad = b
+        if bad is not None:
+            rep.violation('PG2', fi.qual, f'`{ast.unparse(bad)[:50]}` wraps an Euler angle: for half-integer spin the representation is 4 pi periodic in alpha and gamma, a 2 pi wrap '
+                          f'changes the sign of D^j', m, bad)
+        else:
+            rep.ok('PG2', fi.qual, 'Euler angles not wrapped', m, fi.node, text='get_su2_irrep angle wrap')
+    if 'AG7' in which:
+        rep.rule('AG7', RULE_AG7)
+        fi = proj.func('numqi.group._lie.su2_to_angle')
+        m = fi.module
+        rep.touch(m)
+        tests = [s for s in ast.walk(fi.node) if isinstance(s, ast.Assign) and isinstance(s.value, ast.Compare) and isinstance(s.value.ops[0], ast.Lt)
+                 and isinstance(s.value.comparators[0], ast.Constant) and s.value.comparators[0].value == 0]
+        if not tests:
+            rep.undecided('AG7', fi.qual, 'sheet test `(...) < 0` not found', m, fi.node, text='sheet test')
+        for s in tests:
+            n += 1
+            t = ast.unparse(s.value.left).replace(' ', '')
+            complex_product = ('exp(' in t and 'j' in t and t.endswith('.real')) or ('.imag' in t and '.real' in t)
+            if complex_product:
+                rep.ok('AG7', fi.qual, f'`{ast.unparse(s)[:60]}`: real part of the complex product', m, s)
+            else:
+                rep.violation('AG7', fi.qual, f'`{ast.unparse(s)[:70]}`: the sheet test does not take the real part of the complex product exp(i(alpha+gamma)/2)*a (the Im(a) term is '
+                              f'missing): purely imaginary U[0,0] is put on the wrong sheet', m, s)
+    if 'M3G' in which:
+        rep.rule('M3', RULE_M3G)
+        fi = proj.func('numqi.sim.state.measure_quantum_vector')
+        m = fi.module
+        rep.touch(m)
+        n += 1
+        bad = [a for a in ast.walk(fi.node) if isinstance(a, ast.Assert) and 'prob' in ast.unparse(a.test)
+               and any(isinstance(c, ast.Constant) and isinstance(c.value, float) and 0 < c.value < 1e-6 for c in ast.walk(a.test))]
+        if bad:
+            rep.violation('M3', f'{fi.qual}[tolerance]', f'`{ast.unparse(bad[0])[:70]}` rejects states by a double-precision absolute tolerance: normalised single-precision states '
+                          f'(off by 1e-7) can no longer be measured', m, bad[0])
+        else:
+            rep.ok('M3', f'{fi.qual}[tolerance]', 'no absolute double-precision tolerance on the probabilities', m, fi.node, text='measure tolerance')
     return n
